@@ -12,8 +12,11 @@
 (***************************************************************************)
 EXTENDS Hostile, Json
 VARIABLE T
+CHR == K("char")
 TextTypes == {STR, K("dstr"), K("tz"), K("dttz"), K("bigdec"), OptT(STR), [k |-> "vec", e |-> STR],
-              [k |-> "tup", es |-> <<U8, K("tz")>>]}
+              [k |-> "tup", es |-> <<U8, K("tz")>>], CHR, [k |-> "vec", e |-> CHR]}
+\* 16-bit code units on both sides of every edge of the surrogate range (a char is one UTF-16 code unit on the wire)
+CharUnits == {<<0, 0>>, <<0, 97>>, <<215, 255>>, <<216, 0>>, <<219, 255>>, <<220, 0>>, <<222, 66>>, <<223, 255>>, <<224, 0>>, <<255, 255>>}
 Init == T \in TextTypes
 Next == UNCHANGED T
 Spec == Init /\ [][Next]_T
@@ -33,8 +36,11 @@ Frame(s) ==
     [] T.k = "dttz" -> Encode(K("ndt"), VS(K("ndt"))[1]).b \o <<1>> \o EncStrBytes(s)
     [] T.k = "opt" -> <<1>> \o EncStrBytes(s)
     [] T.k = "vec" -> VarI(2) \o EncStrBytes(s) \o EncStrBytes(s)
+    [] T.k = "char" -> <<>>
     [] T.k = "tup" -> <<0, 7, 1>> \o EncStrBytes(s)
-Inputs == {Frame(s) : s \in Probes} \cup {SubSeq(Frame(s), 1, Len(Frame(s)) - 1) : s \in Probes}
+Inputs == IF T = CHR THEN CharUnits \cup {<<u[1]>> : u \in CharUnits}
+          ELSE IF T.k = "vec" /\ T.e = CHR THEN {VarI(2) \o <<0, 97>> \o u : u \in CharUnits}
+          ELSE {Frame(s) : s \in Probes} \cup {SubSeq(Frame(s), 1, Len(Frame(s)) - 1) : s \in Probes}
 DecTotal == \A b \in Inputs : RefOutcome(T, b)[1] \in {"ok", "err", "unspec", "huge"}
 \* well-formed text is accepted by the plain string types, whatever its length
 TextAccepted == T.k \in {"str", "dstr"} => \A s \in Probes : RefOutcome(T, Frame(s)) = <<"ok", <<3>> \o s, Len(Frame(s))>>
